@@ -362,7 +362,10 @@ func (x *xl) namedConst(n ast.Node, txt string) (tx, bool) {
 	}
 	if s, ok := x.fn.consts[txt]; ok {
 		if s == "src" { // a package-level constant of the same file with a literal value: READ from the source
-			if v, ok := x.srcConst(txt); ok {
+			if v, typ, ok := x.srcConstTyped(txt); ok {
+				if typ != "" {
+					return x.constTo(n, tx{typ: "untyped", val: v}, typ), true
+				}
 				return tx{typ: "untyped", val: v}, true
 			}
 			if b, ok := x.srcVarBytes(txt); ok { // var name = []byte("literal"): a byte-string value
@@ -398,51 +401,109 @@ func (x *xl) namedConst(n ast.Node, txt string) (tx, bool) {
 	return tx{}, false
 }
 
-// srcConst finds `const name = <literal>` at package level of the translated file; in a block whose first spec is
-// `= iota` (plain, optionally typed) and whose other specs repeat it implicitly, the value is the spec's position.
+// srcConst finds `const name = <constant expression>` at package level of the translated file.  The expression may be a
+// literal, `iota`, another constant of the same file, and `+ - *`, unary minus, parentheses and `T(…)` conversions
+// over these; a spec without values repeats the last expression list of its block with its own `iota` (Go's rule).
 func (x *xl) srcConst(name string) (constant.Value, bool) {
-	if x.file == nil {
-		return nil, false
+	v, _, ok := x.srcConstDepth(name, 0)
+	return v, ok
+}
+
+// srcConstTyped also gives the static type of a TYPED constant (`DebugLevel Level = iota - 1`, `_minLevel = DebugLevel`)
+// when the entry maps the Go type to an integer type; "" for an untyped constant.
+func (x *xl) srcConstTyped(name string) (constant.Value, string, bool) {
+	v, tn, ok := x.srcConstDepth(name, 0)
+	if !ok || tn == "" {
+		return v, "", ok
+	}
+	if t, has := x.fn.types[tn]; has && isInt(t) {
+		return v, t, true
+	}
+	if t, has := goBasic[tn]; has && isInt(t) {
+		return v, t, true
+	}
+	return nil, "", false // a typed constant whose type the entry does not declare
+}
+
+func (x *xl) srcConstDepth(name string, depth int) (constant.Value, string, bool) {
+	if x.file == nil || depth > 8 {
+		return nil, "", false
 	}
 	for _, d := range x.file.Decls {
 		gd, ok := d.(*ast.GenDecl)
 		if !ok || gd.Tok != token.CONST {
 			continue
 		}
-		plainIota := false
+		var last []ast.Expr
+		lastType := ""
 		for si, sp := range gd.Specs {
 			vs := sp.(*ast.ValueSpec)
-			if si == 0 {
-				if len(vs.Names) == 1 && len(vs.Values) == 1 {
-					if id, ok := vs.Values[0].(*ast.Ident); ok && id.Name == "iota" {
-						plainIota = true
-					}
+			if len(vs.Values) != 0 {
+				last = vs.Values
+				lastType = ""
+				if vs.Type != nil {
+					lastType = exprString(vs.Type)
 				}
-			} else if len(vs.Values) != 0 || len(vs.Names) != 1 {
-				plainIota = false
 			}
 			for i, id := range vs.Names {
 				if id.Name != name {
 					continue
 				}
-				if plainIota {
-					return constant.MakeInt64(int64(si)), true
+				if i >= len(last) {
+					return nil, "", false
 				}
-				if i >= len(vs.Values) {
-					return nil, false
+				v, tn, ok := x.srcConstExpr(last[i], int64(si), depth)
+				if lastType != "" {
+					tn = lastType
 				}
-				if lit, ok := vs.Values[i].(*ast.BasicLit); ok && (lit.Kind == token.STRING || lit.Kind == token.INT || lit.Kind == token.CHAR) {
-					v := constant.MakeFromLiteral(lit.Value, lit.Kind, 0)
-					if lit.Kind != token.STRING {
-						v = constant.ToInt(v)
-					}
-					return v, true
-				}
-				return nil, false
+				return v, tn, ok
 			}
 		}
 	}
-	return nil, false
+	return nil, "", false
+}
+
+func (x *xl) srcConstExpr(e ast.Expr, iota int64, depth int) (constant.Value, string, bool) {
+	switch t := e.(type) {
+	case *ast.ParenExpr:
+		return x.srcConstExpr(t.X, iota, depth)
+	case *ast.BasicLit:
+		if t.Kind == token.STRING || t.Kind == token.INT || t.Kind == token.CHAR {
+			v := constant.MakeFromLiteral(t.Value, t.Kind, 0)
+			if t.Kind != token.STRING {
+				v = constant.ToInt(v)
+			}
+			return v, "", true
+		}
+	case *ast.Ident:
+		if t.Name == "iota" {
+			return constant.MakeInt64(iota), "", true
+		}
+		return x.srcConstDepth(t.Name, depth+1)
+	case *ast.UnaryExpr:
+		if t.Op == token.SUB {
+			if v, tn, ok := x.srcConstExpr(t.X, iota, depth); ok && v.Kind() == constant.Int {
+				return constant.UnaryOp(token.SUB, v, 0), tn, true
+			}
+		}
+	case *ast.BinaryExpr:
+		if t.Op == token.ADD || t.Op == token.SUB || t.Op == token.MUL {
+			a, ta, ok1 := x.srcConstExpr(t.X, iota, depth)
+			b, tb, ok2 := x.srcConstExpr(t.Y, iota, depth)
+			if ok1 && ok2 && a.Kind() == constant.Int && b.Kind() == constant.Int {
+				if ta == "" {
+					ta = tb
+				}
+				return constant.BinaryOp(a, t.Op, b), ta, true
+			}
+		}
+	case *ast.CallExpr: // a conversion T(c) to a named integer type of the same file
+		if id, ok := t.Fun.(*ast.Ident); ok && len(t.Args) == 1 && id.Obj != nil && id.Obj.Kind == ast.Typ {
+			v, _, ok := x.srcConstExpr(t.Args[0], iota, depth)
+			return v, id.Name, ok
+		}
+	}
+	return nil, "", false
 }
 
 // srcVarBytes finds `var name = []byte("literal")` at package level of the translated file (a variable the whitelist
@@ -525,6 +586,14 @@ func (x *xl) place(e ast.Expr) (lv string, rd string, typ string, ok bool) {
 	switch t := e.(type) {
 	case *ast.ParenExpr:
 		return x.place(t.X)
+	case *ast.StarExpr:
+		// *recv of a POINTER receiver whose pointee the entry maps (recvAs): the pointee is that field.  (`*l = DebugLevel`)
+		if id, ok := t.X.(*ast.Ident); ok && id.Name == x.recvVar && x.recvVar != "" && x.fn.recvAs != nil && x.recvIsPointer() {
+			if _, shadow := x.lookupNonRecv(id.Name); !shadow {
+				f := x.fn.recvAs
+				return "(.fld " + leanStr(f.lean) + ")", "(.fld " + leanStr(f.lean) + ")", f.typ, true
+			}
+		}
 	case *ast.Ident:
 		if v, ok := x.lookup(t.Name); ok {
 			return "(.loc " + leanStr(v.lean) + ")", "(.loc " + leanStr(v.lean) + ")", v.typ, true
@@ -558,6 +627,15 @@ func (x *xl) place(e ast.Expr) (lv string, rd string, typ string, ok bool) {
 		}
 	}
 	return "", "", "", false
+}
+
+// recvIsPointer: the method is declared on *T
+func (x *xl) recvIsPointer() bool {
+	if x.fd == nil || x.fd.Recv == nil || len(x.fd.Recv.List) != 1 {
+		return false
+	}
+	_, ok := x.fd.Recv.List[0].Type.(*ast.StarExpr)
+	return ok
 }
 
 // lookupNonRecv: is the receiver name shadowed by a local?
@@ -623,6 +701,11 @@ func (x *xl) expr(e ast.Expr) tx {
 			}
 		}
 		x.fail(e, "selector %s is neither a mapped receiver field nor a declared constant", exprString(e))
+	case *ast.StarExpr:
+		if _, rd, typ, ok := x.place(e); ok {
+			return tx{lean: rd, typ: typ}
+		}
+		x.fail(e, "dereference %s: only *recv of a pointer receiver with a mapped pointee is in the subset", exprString(e))
 	case *ast.UnaryExpr:
 		if t.Op == token.AND { // &T{a, b}: a constructor the entry gives a meaning to (shim "&T")
 			if cl, ok := t.X.(*ast.CompositeLit); ok {
@@ -960,6 +1043,8 @@ type tcall struct {
 	pureTrace bool     // the call touches nothing Go code can read (only the trace and its own results)
 	pureFun   bool     // kind "funpure": a translated callee claimed (and checked) to assign no field
 	recvRd    string   // addret / cas: the receiver as an expression
+	before    []string // kind "funaddr": statements copying the addressed local into the callee's pointee field
+	after     []string // … and back
 	old, new  string   // cas
 }
 
@@ -1398,6 +1483,23 @@ func (x *xl) callExpr(c *ast.CallExpr) (tx, bool) {
 		addArgs()
 		pendingCall = &tcall{ctor: "call", f: sh.f, args: args, res: sh.res}
 		return tx{}, true
+	case "funaddr":
+		// statement  lhs… = translated METHOD f with a pointer receiver, called on an addressable LOCAL v (Go takes &v):
+		// the callee's pointee field (flds[0], a GoMini field name of the CALLEE's entry) is loaded from v before the call
+		// and v is reloaded from it afterwards; the callee's nil-receiver flag (with[0], optional) is false.  Sound because
+		// nothing else can hold &v while the call runs (the subset has no other way to take an address).
+		if !hasRecv || !strings.HasPrefix(recvLV, "(.loc ") || len(sh.flds) != 1 {
+			x.fail(c, "shim funaddr on %s needs an addressable local and the callee's pointee field", key)
+		}
+		addArgs()
+		pc := &tcall{ctor: "call", f: sh.f, args: args, res: sh.res}
+		pc.before = append(pc.before, "(.assign [(.fld "+leanStr(sh.flds[0])+")] ["+recvLean+"])")
+		if len(sh.with) == 1 {
+			pc.before = append(pc.before, "(.assign [(.fld "+leanStr(sh.with[0])+")] [(.lit (.bool false))])")
+		}
+		pc.after = append(pc.after, "(.assign ["+recvLV+"] [(.fld "+leanStr(sh.flds[0])+")])")
+		pendingCall = pc
+		return tx{}, true
 	case "fun", "funpure":
 		if !isSelf && !isPkgFn && !isOther {
 			x.fail(c, "translated function %s must be called on the receiver itself", key)
@@ -1739,6 +1841,40 @@ func (x *xl) hoistCall(t *ast.CallExpr, conditional, first bool, out *[]string) 
 	*out = append(*out, x.emitCall(t, pc, []string{"(.loc " + leanStr(tmp.lean) + ")"}, []string{tmp.typ}))
 }
 
+func unparen(e ast.Expr) ast.Expr {
+	for {
+		p, ok := e.(*ast.ParenExpr)
+		if !ok {
+			return e
+		}
+		e = p.X
+	}
+}
+
+// containsStmtCall: does evaluating e make a call that is a STATEMENT in GoMini (translated function, recorded intrinsic)?
+func (x *xl) containsStmtCall(e ast.Expr) bool {
+	found := false
+	ast.Inspect(e, func(n ast.Node) bool {
+		if c, ok := n.(*ast.CallExpr); ok && !found {
+			func() {
+				defer func() {
+					if r := recover(); r != nil {
+						if _, is := r.(xerr); !is {
+							panic(r)
+						}
+					}
+				}()
+				if _, st := x.callExpr(c); st {
+					found = true
+				}
+			}()
+			pendingCall = nil
+		}
+		return !found
+	})
+	return found
+}
+
 // hoist prepares expression e; when root is true and e is itself a call, only its arguments are prepared (the
 // statement translator deals with the call itself).
 func (x *xl) hoist(e ast.Expr, root bool) []string {
@@ -1887,6 +2023,14 @@ func (x *xl) stmt1(s ast.Stmt) string {
 		}
 		x.fail(s, "%s is outside the subset", t.Tok)
 	case *ast.IfStmt:
+		// `if A && B { S }` (no else) whose right operand makes a statement-level call (a translated function, a recorded
+		// intrinsic): it IS `if A { if B { S } }`, and each condition then starts with its call, which can be hoisted
+		if be, ok := unparen(t.Cond).(*ast.BinaryExpr); ok && be.Op == token.LAND && t.Else == nil && x.containsStmtCall(be.Y) {
+			inner := &ast.IfStmt{If: be.Y.Pos(), Cond: be.Y, Body: t.Body}
+			outer := &ast.IfStmt{If: t.If, Init: t.Init, Cond: be.X,
+				Body: &ast.BlockStmt{Lbrace: t.Body.Lbrace, List: []ast.Stmt{inner}, Rbrace: t.Body.Rbrace}}
+			return x.stmt1(outer)
+		}
 		x.push()
 		defer x.pop()
 		var pre []string
@@ -1991,6 +2135,11 @@ func (x *xl) emitCall(n ast.Node, pc *tcall, lvs []string, ltyps []string) strin
 		lvs = append(lvs, pc.post...)
 		if pc.traceStmt != "" {
 			return block([]string{pc.traceStmt, "(." + pc.ctor + " [" + strings.Join(lvs, ", ") + "] " + leanStr(pc.f) + " [" + strings.Join(pc.args, ", ") + "])"})
+		}
+		if len(pc.before)+len(pc.after) != 0 {
+			ss := append([]string{}, pc.before...)
+			ss = append(ss, "(."+pc.ctor+" ["+strings.Join(lvs, ", ")+"] "+leanStr(pc.f)+" ["+strings.Join(pc.args, ", ")+"])")
+			return block(append(ss, pc.after...))
 		}
 		return "(." + pc.ctor + " [" + strings.Join(lvs, ", ") + "] " + leanStr(pc.f) + " [" + strings.Join(pc.args, ", ") + "])"
 	}
